@@ -1,5 +1,6 @@
-"""C03 - locked / unconfirmed accounts cannot complete a login or pass the middlewares."""
+"""C03 - decided on the request-level model: proofs in coq/theories/Props/C03.v, predicate p_c03
+(coq/theories/Spec/Preds.v) evaluated on the implementation's observations, projection facets 10,13,152,153."""
 import worldprop
 
-P = worldprop.WorldProp("C03", "pred_c03", [("general", 150, 3000), ("lock", 150, 3000)], {10, 13, 152, 153})
+P = worldprop.WorldProp("C03", "p_c03", [('general', 150, 2500), ('lock', 150, 2500), ('oauth2', 100, 1500)], {10,13,152,153})
 run, replay = P.run, P.replay
